@@ -24,7 +24,7 @@ EXPLANATION = (
     'writes the (namespace, key, author) index row for every entry (shared with C18.R2). The latest-per-key selection ranks'
     ' entries with equal timestamps by what is left of them (content hash, author), so that the choice does not depend on '
     'the direction of the scan; the author filter of such a query applies to the selected entry (after the grouping), as '
-    'the property text and the note on store::Query say. (R8) the store actor forwards GetExact / GetMany one to one (the store-actor handler evaluated with the fields of the request as named tokens and gates / store / replica calls answered by an oracle, each step also failing in turn: the own fields of the request reach the core function in order on the addressed document, nothing is carried out after a failed step, the reply is the result of that function; the SyncHandle method evaluated: one request of its own kind, addressed to its namespace argument, each field one of its own parameters, the reply of the actor returned). (R9) the RPC handlers doc_get_exact / doc_get_many evaluated as forwarders (K14): author, key, include-deleted flag resp. query of the request reach the store actor, a failure is reported to the caller. NOT decided: exact result sets for all states.'
+    'the property text and the note on store::Query say. (R8) the store actor forwards GetExact / GetMany one to one (the store-actor handler evaluated with the fields of the request as named tokens and gates / store / replica calls answered by an oracle, each step also failing in turn: the own fields of the request reach the core function in order on the addressed document, nothing is carried out after a failed step, the reply is the result of that function; the SyncHandle method evaluated: one request of its own kind, addressed to its namespace argument, each field one of its own parameters, the reply of the actor returned). (R9) the RPC handlers doc_get_exact / doc_get_many evaluated as forwarders (K14): author, key, include-deleted flag resp. query of the request reach the store actor, a failure is reported to the caller. (R10) the file-format migration carries the records and the key-ordered index. NOT decided: exact result sets for all states.'
 )
 ASSUMPTIONS = ["redb range iteration order = tuple key order", "tables identified by type"]
 
@@ -622,6 +622,13 @@ def r9(ctx):
     ctx.floor("C05.R9", 4)
 
 
+def r10(ctx):
+    """both access paths of a store written in the older file format survive the format migration that runs on open"""
+    from . import redbmig
+    redbmig.check(ctx, "C05.R10", only={"records-by-key-1", "records-1"})
+    ctx.floor("C05.R10", 1)
+
+
 def run(ctx):
     ctx.run_rule("C05.R1", r1)
     ctx.run_rule("C05.R2", r2)
@@ -632,3 +639,4 @@ def run(ctx):
     ctx.run_rule("C05.R7", r7)
     ctx.run_rule("C05.R8", r8)
     ctx.run_rule("C05.R9", r9)
+    ctx.run_rule("C05.R10", r10)
